@@ -29,7 +29,7 @@ const nSubj = 2
 const maxChans = 4
 
 type scenario struct {
-	Kind   string   `json:"kind"`   // valid | overlap | malformed
+	Kind   string   `json:"kind"`   // valid | overlap | malformed | burst
 	Quotas [4]int   `json:"quotas"` // Channels, ChannelsPerSubject, Subscriptions, SubscriptionsPerSubject
 	Script []string `json:"script"` // phase A commands; drain, settle and teardown follow automatically
 	// observed (filled by run)
@@ -80,6 +80,35 @@ func readMarkEarly() bool {
 	return m >= 0 && c >= 0 && m < c
 }
 
+// updBlocking: Update queues its event with an unconditional blocking send (false: a select with
+// default); read from the source like the translator does
+var updBlocking = readUpdBlocking()
+
+func readUpdBlocking() bool {
+	repo := os.Getenv("VERIF_REPO")
+	if repo == "" {
+		repo = "/repo"
+	}
+	b, err := os.ReadFile(repo + "/pkg/in10nmem/impl.go")
+	if err != nil {
+		return true
+	}
+	src := string(b)
+	i := strings.Index(src, ") Update(")
+	if i < 0 {
+		return true
+	}
+	body := src[i:]
+	if j := strings.Index(body[1:], "\nfunc "); j >= 0 {
+		body = body[:j+1]
+	}
+	m := regexp.MustCompile(`case\s+nb\.events\s*<-`).FindStringIndex(body)
+	return m == nil || !strings.Contains(body[m[1]:], "default:")
+}
+
+// how long a call released into a full queue is watched for a (faulty) return
+const blockPatience = 15 * time.Millisecond
+
 func projKey(p int) in10n.ProjectionKey {
 	return in10n.ProjectionKey{App: istructs.AppQName_test1_app1, Projection: appdef.NewQName("verif", "prj"), WS: istructs.WSID(p + 1)}
 }
@@ -129,6 +158,7 @@ type drv struct {
 	live     map[int]bool
 	term     map[int]bool
 	clnBegun map[int]bool
+	blocked  *gcall // the Update that was released into the full queue and sits in its send
 	nRunning bool // notifier is inside its select (not parked)
 	nStage   string
 	nGot     int
@@ -375,6 +405,34 @@ func (d *drv) callEnabled(g *gcall) bool {
 	return false
 }
 
+// blockable: an Update that would have to wait in its enqueue: the queue is full and the mirror's
+// queue length is exact (the notifier is parked at a point, not inside its select)
+func (d *drv) blockable(g *gcall) bool {
+	return !g.pr.done && g.kind == "upd" && g.stage == "stored" && !d.room() && !d.nRunning && d.blocked == nil
+}
+
+// blockCall releases such an Update and observes that it does not return (must-not-arrive)
+func (d *drv) blockCall(g *gcall) {
+	d.touched(g.pr.name)
+	pt, ok := g.pr.step(blockPatience)
+	switch {
+	case !ok:
+		g.stage = "blocked"
+		d.blocked = g
+		d.tags["update-blocked-on-full-queue"] = true
+		d.emit("(ABlocked %d, ONone)", g.p)
+	case pt == "done":
+		// the call returned although the queue is full
+		d.tags["update-returned-on-full-queue"] = true
+		if updBlocking {
+			d.queue = append(d.queue, g.p)
+		}
+		d.emit("(AUpdEnq %d, ONone)", g.p)
+	default:
+		d.stuck(g.id, "upd-block->"+pt)
+	}
+}
+
 func (d *drv) expect(g *gcall, want string) bool {
 	pt, ok := g.pr.step(patience)
 	if !ok || pt != want {
@@ -516,6 +574,17 @@ func (d *drv) stepNotifier() {
 		d.queue = d.queue[1:]
 		d.nStage = "got"
 		d.emit("(ANDeq, ONone)")
+		if g := d.blocked; g != nil {
+			// the dequeue made room: the blocked Update must complete now
+			if pt, ok := g.pr.arrive(patience); !ok || pt != "done" {
+				d.stuck(g.id, "blocked-update-not-released->"+pt)
+				return
+			}
+			d.blocked = nil
+			g.stage = ""
+			d.queue = append(d.queue, g.p)
+			d.emit("(AUpdEnq %d, ONone)", g.p)
+		}
 	case "got":
 		p := d.nGot
 		for c, v := range d.tosub[p] {
